@@ -9,7 +9,12 @@ real document before the step (re-encoded, with object identities) and the
 coordinates the real read side handed to _apply_change / _delete_nodes go to
 the model; the model's post-state must equal the real post-state node by node
 (data, order, anchors, identity classes).  After every step the real document
-is dumped with the project's editor and reloaded with Parsers.get_yaml_data."""
+is dumped with the project's editor and reloaded with Parsers.get_yaml_data.
+
+Second compared line per step (round `compose`): the FULLY MODELLED route.  The same pre-state document, the
+path TEXT and the value go to `(set-e2e ...)` / `(del-e2e ...)` (ocaml/drv_set2e.ml -> Model/Compose.v ce_set /
+ce_delete): the evaluator model gathers, the Mutate model changes, nothing comes from the real read side.  Its
+answer must equal the real post-state (or exception family + post-state) of the very same call."""
 import json
 import random
 
@@ -17,6 +22,7 @@ import docenc
 import mutgen
 import oracles
 import c04
+import evalcommon
 from common import hexs
 
 CONFIG = {
@@ -29,6 +35,8 @@ CONFIG = {
              "current real document to match >= 1 node; plus a structured stream (n/15 cases) for the alias-used-as-a-key "
              "branch: a mapping with an anchored key, aliases of it as value / element / key of a second mapping, changed "
              "through a value alias to a sibling key (refused), to itself, or to a fresh name (renamed).  "
+             "every step is compared twice: the model fed with the coordinates captured from the real read side, and "
+             "the fully modelled route (set-e2e / del-e2e: evaluator model + Mutate model on document, path text, value); "
              "non-trivial = at least one step applied a change; "
              "distinct = distinct (document, seed)."),
     "trusted_base": [
@@ -55,6 +63,7 @@ _CACHE = {}
 
 def init_worker():
     mutgen.init_env()
+    evalcommon.init_worker()
 
 
 def family(e):
@@ -161,6 +170,57 @@ def anchor_of(x):
     return None
 
 
+def live_doc(data):
+    """evalcommon.LoadedDoc (oracle tables of the evaluator model: str() of containers, repr() of scalars, haystack
+    texts) for a document that is already loaded - the live document of a history."""
+    ld = evalcommon.LoadedDoc.__new__(evalcommon.LoadedDoc)
+    orig = evalcommon.load
+    evalcommon.load = lambda _text: data
+    try:
+        evalcommon.LoadedDoc.__init__(ld, "<live>")
+    finally:
+        evalcommon.load = orig
+    return ld
+
+
+def e2e_tables(data, path, extra_lit=()):
+    """(lit, re, nstr) tables for the evaluator model on the PRE-state, or None when they cannot be had."""
+    try:
+        if not evalcommon._ENV:
+            evalcommon.init_worker()
+        ld = live_doc(data)
+        terms, regex = evalcommon.path_terms(path)
+        if regex and ")-" in path.replace(" ", ""):
+            return None         # str() of the reduced copies of a Collector subtraction needs a scratch reload
+        lit = oracles.lit_table(list(ld.scalars) + sorted(terms) + list(extra_lit))
+        re_t = oracles.re_table([(p, t) for p in sorted(regex) for t in ld.hay_texts])
+        return lit, re_t, ld.nstr, ld.sexp
+    except Exception:  # noqa
+        return None
+
+
+def coords_in_adapter(ncs, doc_ids, top=True):
+    """Are the gathered NodeCoords inside Compose.ce_coord: every parent (at every depth) is None or an object of
+    the document, and only the results of the path itself may carry a [name()] path segment."""
+    E = mutgen.init_env()
+    NC = E["NodeCoords"]
+    for nc in ncs:
+        if not isinstance(nc, NC):
+            return False
+        if nc.parent is not None and id(nc.parent) not in doc_ids:
+            return False
+        if not top and mutgen.is_name_kw(nc):
+            return False
+        node = nc.node
+        if isinstance(node, NC):
+            if not coords_in_adapter([node], doc_ids, False):
+                return False
+        elif isinstance(node, list) and len(node) > 0 and isinstance(node[0], NC):
+            if not coords_in_adapter(node, doc_ids, False):
+                return False
+    return True
+
+
 def set_step(p, path, value, fmt, mustexist):
     """Run the real set_value on the live Processor; returns the step record."""
     E = mutgen.init_env()
@@ -172,6 +232,8 @@ def set_step(p, path, value, fmt, mustexist):
     except docenc.Unsupported:
         rec["why"] = "unsupported"
         return rec
+    doc_ids = set(k for k in enc.oids if isinstance(k, int))
+    tabs = e2e_tables(data, path, [value])          # on the PRE-state
     if not mustexist:
         # creation of missing nodes is C09b's subject: here the path must already match
         try:
@@ -274,6 +336,7 @@ def set_step(p, path, value, fmt, mustexist):
     p._apply_change = apply_wrapped
     p._update_node = update_and_check
     exc = None
+    evalcommon._ENV["creations"] = 0
     try:
         p.set_value(path, value, mustexist=mustexist, value_format=E["YAMLValueFormats"][fmt])
     except Exception as e:  # noqa
@@ -281,8 +344,24 @@ def set_step(p, path, value, fmt, mustexist):
     finally:
         del p._apply_change
         del p._update_node
+    created = evalcommon._ENV.get("creations", 0) > 0
+    vo0 = enc.oids.get(id(value)) if (value is None or isinstance(value, (str, int, float))) else None
+
+    def e2e_request():
+        return "(set-e2e %s %s %s %s %s %s %s %s %s %s)" % (
+            "true" if mustexist else "false", hexs(path), before, docenc.pyval_sexp(value), fmt,
+            "none" if vo0 is None else "i%d" % vo0, tabs[0], tabs[1], tabs[2], flt)
     if not calls:
         rec["why"] = "read:" + (type(exc).__name__ if exc is not None else "nomatch")
+        # the gather raised (or matched nothing) before any change: the composed model must say so too
+        # (no exception and no change: an optional gather that yielded nothing - the model must end `done` as well)
+        if tabs is not None and not created and not isinstance(exc, RecursionError):
+            try:
+                unchanged = docenc.canon_doc_text(docenc.encode(p.data)[0])
+                rec["e2e"] = (e2e_request(), "(done %s)" % unchanged if exc is None
+                              else "(failed %s %s)" % (family(exc), unchanged))
+            except docenc.Unsupported:
+                pass
         return rec
     try:
         after = docenc.canon_doc_text(docenc.encode(p.data)[0])
@@ -292,7 +371,12 @@ def set_step(p, path, value, fmt, mustexist):
     if rec.get("detached"):
         rec["why"] = "detached-parent"
         return rec
-    vo = enc.oids.get(id(value)) if (value is None or isinstance(value, (str, int, float))) else None
+    vo = vo0
+    if tabs is not None and not created and coords_in_adapter(calls, doc_ids):
+        rec["e2e"] = (e2e_request(),
+                      "(done %s)" % after if exc is None else "(failed %s %s)" % (family(exc), after))
+    else:
+        rec["e2e_why"] = "tables" if tabs is None else ("created" if created else "outside-adapter")
     rec.update(kind="run", before=before, exc=exc, after=after, calls=calls, leaf=leaf_checks,
                applied=len(leaf_checks),
                request="(set %s (%s) %s %s %s %s %s)" % (
@@ -304,6 +388,30 @@ def set_step(p, path, value, fmt, mustexist):
 
 def gen_value(rng):
     return rng.choice(VALUES)
+
+
+def delete_step(p, path):
+    """c04.delete_record + the fully modelled route (del-e2e) on the same pre-state."""
+    data = p.data
+    try:
+        _, enc0 = docenc.encode(data)
+        doc_ids = set(k for k in enc0.oids if isinstance(k, int))
+        tabs = e2e_tables(data, path)
+    except docenc.Unsupported:
+        tabs, doc_ids = None, set()
+    evalcommon._ENV["creations"] = 0
+    rec = c04.delete_record(p, path)
+    rec["op"] = "del"
+    rec["desc"] = ("del", path)
+    if rec["kind"] == "run":
+        rec["request"] = "(delete %s %s %s)" % (rec["before"], rec["coords_sexp"], rec["mg_sexp"])
+        if (tabs is not None and rec["mg_sexp"] == "()" and coords_in_adapter(rec["coords"], doc_ids)
+                and not evalcommon._ENV.get("creations", 0)):
+            exc = rec["exc"]
+            rec["e2e"] = ("(del-e2e %s %s %s %s %s)" % (hexs(path), rec["before"], tabs[0], tabs[1], tabs[2]),
+                          "(done %s)" % rec["after"] if exc is None
+                          else "(failed %s %s)" % (family(exc), rec["after"]))
+    return rec
 
 
 def run_case(case):
@@ -337,11 +445,7 @@ def run_case(case):
             rec["desc"] = ("set", path, repr(value), fmt)
         elif script is not None:
             path = script[stepno][1]
-            rec = c04.delete_record(p, path)
-            rec["op"] = "del"
-            rec["desc"] = ("del", path)
-            if rec["kind"] == "run":
-                rec["request"] = "(delete %s %s %s)" % (rec["before"], rec["coords_sexp"], rec["mg_sexp"])
+            rec = delete_step(p, path)
         elif r < 0.75:
             path = mutgen.gen_path(rng, p.data, allow_root=rng.random() < 0.3)
             value = gen_value(rng)
@@ -350,11 +454,7 @@ def run_case(case):
             rec["desc"] = ("set", path, repr(value), fmt)
         else:
             path = mutgen.gen_path(rng, p.data, allow_root=False)
-            rec = c04.delete_record(p, path)
-            rec["op"] = "del"
-            rec["desc"] = ("del", path)
-            if rec["kind"] == "run":
-                rec["request"] = "(delete %s %s %s)" % (rec["before"], rec["coords_sexp"], rec["mg_sexp"])
+            rec = delete_step(p, path)
         if rec["kind"] == "run":
             # dump + strict reload of the real document after the step
             try:
@@ -373,6 +473,7 @@ def requests(case):
     out = []
     for rec in run_case(case):
         out.append(rec["request"] if rec["kind"] == "run" else "(mut-skip)")
+        out.append(rec["e2e"][0] if "e2e" in rec else "(mut-skip)")       # the fully modelled route
     return out or ["(mut-skip)"]
 
 
@@ -385,6 +486,7 @@ def observe(case):
             out.append("(done %s)" % rec["after"])
         else:
             out.append("(failed %s %s)" % (family(rec["exc"]), rec["after"]))
+        out.append(rec["e2e"][1] if "e2e" in rec else "(skip)")
     return out or ["(skip)"]
 
 
